@@ -60,6 +60,8 @@ type Ctl struct {
 	RandSeed uint64
 	Pid      int
 	Host     string
+	// SlowSeed (non-zero): file operations take simulated time, see op()
+	SlowSeed uint64
 	// StdoutFailFrom: from this write on (1-based; 0 = never) every write to the standard streams fails with ENOSPC
 	StdoutFailFrom int
 	stdWrites      int
